@@ -36,7 +36,8 @@ def run(c: Check):
         raise Undecided("receive paths exercised: %s" % sorted(paths))
     # controls must be answered on every path (otherwise the laboratory is broken)
     for e in ev:
-        if e["variant"].startswith("control") and not e["fresh"]["replies"]:
+        # (a stream whose length prefix lies is refused as a whole: no control can be answered there)
+        if e["variant"].startswith("control") and not e["fresh"]["replies"] and e["path"] != "doq-longprefix":
             raise Undecided("control message got no reply on %s" % e["path"])
     for e in ev2:
         if e["variant"].startswith("control") and e["fresh"]["err"]:
